@@ -44,7 +44,8 @@ def generate(seed, tier):
         if x < 0.38:
             m = LC.gen_mine(rng, latest_bias=0.55, max_txs=3)
             m.update({'op': 'relay', 'peer': peer, 'overlap': rng.random() < 0.2,
-                      'clock': rng.choice([0, 0, -25, 5, 100])})
+                      'clock': rng.choice([0, 0, -25, 5, 100]),
+                      'future': rng.choice([None] * 8 + [20, 28, 37, 45])})
             ops.append(m)
         elif x < 0.5:
             ops.append({'op': 'dup', 'n': rng.randrange(1000), 'peer': peer})
@@ -275,7 +276,13 @@ def execute(script):
                 rb = sim.parent_of(op.get('tip', -1))
                 txs, fees, _ = sim.build_txs(rb, op.get('txs', []))
                 ts = rb.ts + max(1, op.get('dt', 60))
-                if ts > w.node_clock() + 20:
+                fut = op.get('future') if kind == 'relay' else None
+                if fut is not None and w.node_clock() + fut > rb.ts:
+                    # dated relative to the validator's clock: up to +30 s must be accepted, beyond it rejected
+                    # (28 and 37 leave room for the few seconds a delivery takes)
+                    ts = w.node_clock() + fut
+                    res.bump('probe:block_dated_ahead_of_clock:%s' % ('valid' if fut <= 30 else 'too_far'))
+                elif ts > w.node_clock() + 20:
                     ts = rb.ts + 1
                     if ts > w.node_clock() + 20:
                         res.bump('skipped_future_chain')
@@ -285,7 +292,8 @@ def execute(script):
                 if rules.block_id(blk) in accepted:
                     continue
                 if kind == 'relay':
-                    send_block(blk, op.get('peer', 0), 'honest', 'honest')
+                    send_block(blk, op.get('peer', 0), 'honest' if fut is None else 'dated clock%+d' % fut,
+                               'honest' if (fut is None or fut <= 30) else 'free')
                     batch[-1]['pool_before'] = pool_now
                     if not op.get('overlap'):
                         if not settle_and_check():
